@@ -26,6 +26,7 @@ theorem base_url_unchanged : BASE_FACEBOOK_URL = "https://www.facebook.com" := b
 /-- the sentinel records of `harness/gen_tables/c19_facebook.py` -/
 def sentinel (x : String) : Str := ("{" ++ x ++ "}").toList
 
+/-- `r.url` with `some` for "no exception" (a decidable type for the table obligation) -/
 def urlO (r : Parsed) : Option (Option Str) :=
   match r.url with
   | .ok x => some x
@@ -364,6 +365,18 @@ example :
       reparsable (.video "448540820705115".toList none) = true) ∧
     (parse_facebook_url "https://www.facebook.com/groups/nasa/".toList false
         = .ok (some (.group none (some "nasa".toList))) ∧ reparsable (.group none (some "nasa".toList)) = true) := by
+  decide +kernel
+
+/-- the hypotheses of `reparse_of_parse_partial` hold for what the parser returns on ordinary
+urls (a post of a page, a photo of an album, a user), and fail on the finding shapes -/
+example :
+    (fieldsOk (.post "1".toList none (some "nasa".toList) none none) = true ∧
+      findingShape (.post "1".toList none (some "nasa".toList) none none) = false) ∧
+    (fieldsOk (.photo "456".toList none none (some "nasa".toList) (some "123".toList)) = true ∧
+      findingShape (.photo "456".toList none none (some "nasa".toList) (some "123".toList)) = false) ∧
+    (fieldsOk (.user "100012345".toList none) = true ∧ findingShape (.user "100012345".toList none) = false) ∧
+    findingShape (.handle "people".toList) = true ∧ fieldsOk (.video [] (some "nasa".toList)) = false ∧
+    findingShape (.photo "5".toList none none (some "nasa".toList) (some "a.".toList)) = true := by
   decide +kernel
 
 /-- the conversion to the mobile site and its documented error -/
